@@ -255,6 +255,39 @@ func genC22(repo string, root *pkgInfo, out string) {
 	_, doUsed := callIsStmt(doFd, "stacklessWriterFunc")
 	doInline := doUsed && containsStr(calledFuncs(doFd), "writerFunc")
 	fmt.Fprintf(&b, "/-- stackless (*writer).do runs writerFunc itself when the queue is full -/\ndef stacklessWriterDoInline : Bool := %v\n\n", doInline)
+	// the queue-full branch of (*writer).do is the single statement `writerFunc(w)`: it does not depend on the operation
+	// (Write, Flush, Close and Reset all fall back the same way)
+	uniform := false
+	if doFd != nil && doFd.Body != nil {
+		ast.Inspect(doFd.Body, func(n ast.Node) bool {
+			is, ok := n.(*ast.IfStmt)
+			if !ok {
+				return true
+			}
+			ue, ok := is.Cond.(*ast.UnaryExpr)
+			if !ok || ue.Op != token.NOT {
+				return true
+			}
+			ce, ok := ue.X.(*ast.CallExpr)
+			if !ok {
+				return true
+			}
+			if id, ok := ce.Fun.(*ast.Ident); !ok || id.Name != "stacklessWriterFunc" {
+				return true
+			}
+			if len(is.Body.List) == 1 && is.Else == nil {
+				if es, ok := is.Body.List[0].(*ast.ExprStmt); ok {
+					if c2, ok := es.X.(*ast.CallExpr); ok {
+						if id, ok := c2.Fun.(*ast.Ident); ok && id.Name == "writerFunc" {
+							uniform = true
+						}
+					}
+				}
+			}
+			return false
+		})
+	}
+	fmt.Fprintf(&b, "/-- the queue-full branch of (*writer).do is exactly `writerFunc(w)`, whatever the operation -/\ndef stacklessWriterDoUniform : Bool := %v\n\n", uniform)
 	fmt.Fprintf(&b, "/-- every user of the stackless queue falls back to running the job inline when the queue is full -/\ndef stacklessInlineOnFull : Bool := %v\n\n", all && doInline)
 
 	b.WriteString("/-- prefixes tested by (*ResponseHeader).isCompressibleContentType -/\ndef compressibleTypePrefixes : List (List UInt8) := [")
